@@ -216,8 +216,29 @@ def rule_r2(chk):
     ok = len(apps) == 1 and unparse(apps[0].args[0]).replace(" ", "") == "self._variants[-1].copy()"
     chk.ob("C20-R2", "has_variants.Mixin.expand_num_variants", ok, f"appends {unparse(apps[0].args[0]) if apps else '?'}", m.loc(f))
     g = m.func("Mixin.shrink_num_variants")
-    ok = "self._variants=self._variants[0:new_num]ifnew_num<self.num_variantselseself._variants" in unparse(g).replace(" ", "")
-    chk.ob("C20-R2", "has_variants.Mixin.shrink_num_variants", ok, "keeps the first new_num variants", m.loc(g))
+    from .. import fin
+    bad = None
+    try:
+        for have in (1, 2, 3, 5):
+            for new_num in (1, 2, 3, 5, 7):
+                final = {}
+                env = {"self": "SELF", "self._variants": list(range(have)), "self.num_variants": have}
+                try:
+                    fin.run_function(g, {params(g)[1]: new_num}, env=env, final_env=final, funcs={"Exception": Exception, "ValueError": ValueError})
+                except fin.Raised:
+                    bad = (have, new_num, "raises", None)
+                    break
+                want = list(range(min(have, new_num)))
+                if list(final.get("self._variants", env["self._variants"])) != want:
+                    bad = (have, new_num, list(final.get("self._variants")), want)
+                    break
+            if bad:
+                break
+        chk.ob("C20-R2", "has_variants.Mixin.shrink_num_variants", bad is None,
+               "keeps the first new_num variants and nothing else (20 cases: 1..5 variants x requested 1..7)" if bad is None else
+               f"{bad[0]} variants, shrink to {bad[1]}: {bad[2]} (want the variants {bad[3]})", m.loc(g))
+    except fin.NotFinite as ex:
+        chk.undecided("C20-R2", "has_variants.Mixin.shrink_num_variants", f"not evaluable: {ex}", m.loc(g))
     sm = chk.repo.mod("irispie.simultaneous.main")
     for q in ("Simultaneous.__getstate__", "Simultaneous.__setstate__"):
         h = sm.func(q)
